@@ -12,6 +12,7 @@ KEYMAP = {
     'amplification-limit-exceeded': ['C07'], 'stateless-reset-': ['C07'], 'stateless-response-': ['C07'], 'short-initial-': ['C07'],
     'connection-lost-reported-twice': ['C08'], 'drained-notified-twice': ['C08'], 'output-after-drained': ['C08', 'C20'],
     'close-': ['C08'], 'idle-': ['C08'], 'drain-': ['C08'], 'lost-': ['C08'],
+    'data-delivered-after-close': ['C08'],
     'finished-event-twice': ['C11'], 'finished-without-finish': ['C11'],
     'in-flight-': ['C12'], 'cwnd-': ['C12'],
     'datagram-exceeds-mtu': ['C13'], 'too-many-segments': ['C13'], 'mtu-': ['C13'], 'initial-too-small': ['C13'],
